@@ -223,6 +223,19 @@ CLAIMED = {
          'below the dictionary level (h5py, pickle) the libraries are trusted; mixed-type / ragged lists and lists with None are outside the '
          'model (documented).',
          'DESIGN.md section 7, C16'),
+    'C12': ('Coq proofs: frame property of the in-place operations on a heap of containers (data array, descriptor dictionaries, value '
+         'lists), write sets within the own object, independence of objects that share nothing + in-Coq correspondence on observed '
+         'container graphs for every bindable public callable (introspection)',
+         'Theorems: content(apply_mutation h target m, other) = content(h, other) whenever the write set of m misses what other reaches '
+         '(for array writes, re-binding of descriptor keys with fresh lists, re-binding of attributes); write sets lie inside the own '
+         'object; no shared container => no interference for every operation; attribute re-binding never interferes. Correspondence '
+         '(in Coq): for each discovered callable the argument fingerprints before / after; for each (result object, source object, '
+         'in-place operation, side) the observed container graph is executed by the model: predicted interference = observed change of the '
+         'other side, and none observed. New public functions are picked up automatically when their parameters can be bound from the '
+         'argument pool; those that cannot are listed in the evidence.',
+         'identity-based observation of the object graph inside the harness; accessors returning an existing attribute and in-place helpers '
+         'returning their argument are listed, not judged; descriptor values nested deeper than one container are treated as values.',
+         'DESIGN.md section 7, C12'),
 }
 NA_REASON = 'check not built yet in this round (work in progress; see DESIGN.md section 7)'
 
